@@ -688,7 +688,10 @@ def merge_measure_contents(notes, other, measure_start, measure_end=None):
             elements = merged[voice]
 
         else:
-            elements = notes[voice]
+            # nothing else is merged into this voice, but gaps between
+            # its notes still need a <forward>
+            first_onset = notes[voice][0][0] if notes[voice] else measure_start
+            elements, _ = merge_with_voice(notes[voice], [], first_onset)
 
         # backup/forward when switching voices if necessary
         if elements:
